@@ -63,6 +63,17 @@ func channelRules(c *Ctx) {
 									if ex, isE := x.Val.(*ssa.Extract); isE && ex.Tuple == ssa.Value(site) {
 										return false
 									}
+									// ... nor is handing over the variables the attempt filled in (explicit `return value, err` of the
+									// captured locals, spilled into the result slots because Get defers)
+									if ld, isL := isLoad(x.Val); isL {
+										if mc, isMC := site.Call.Value.(*ssa.MakeClosure); isMC {
+											for _, b := range mc.Bindings {
+												if _, isSlot := x.Addr.(*ssa.Alloc); isSlot && b == ld.X {
+													return false
+												}
+											}
+										}
+									}
 									return true
 								case *ssa.Call:
 									return true
